@@ -608,6 +608,10 @@ package resolve
 //@   requires r != nil && obj != nil
 //@   assumes forall k in 0..len(obj.Fields) :: obj.Fields[k] != nil && isFieldValue(obj.Fields[k].Value)
 //@   at call SetNull: assert {null.only.in.prewalk} !rendering(r)
+//@   ghost itervar g_denied bool = false
+//@   at call authorizeField: ghost g_denied = result
+//@   at call walkNode: assert {denied.field.not.walked} !g_denied
+//@   at call printBytes: assert {denied.field.not.printed} !g_denied
 //@   ensures {stack.restored} len(r.path) == old(len(r.path))
 //@   modifies *, count(*)
 //@   loop 0:
@@ -618,6 +622,9 @@ package resolve
 //@   assumes field != nil && (field.Info != nil ==> len(field.Info.Source.Names) == len(field.Info.Source.IDs))
 //@   ensures {stack.restored} len(r.path) == old(len(r.path))
 //@   ensures {mode.unchanged} r.enableRender == old(r.enableRender) && r.deferMode == old(r.deferMode) && r.enableDeferRender == old(r.enableDeferRender)
+//@   ghost var g_decidedDeny bool = false
+//@   at call FieldAuthorization.decide: ghost g_decidedDeny = result0 != nil || result1 != nil
+//@   ensures {deny.decision.skips.field} g_decidedDeny ==> result
 //@   modifies *, count(*)
 
 //@ func Resolvable.shouldSkipFieldByTypeCondition
